@@ -68,7 +68,8 @@ def collect(chk, prop):
                 "keep_zero_keys": rng.random() < 0.5,          # zero pairings present as explicit 0.0 entries or absent keys
                 "zero_draws": rng.choice([0, 0, 6]),           # some uniform draws are exactly 0.0
                 "retarget": rng.random() < 0.25,               # built with another target, re-targeted through the setter
-                "labels": rng.choice(["id", "id", "shift", "big"])}   # vertex labels 0..N-1, 1000 + 7v, or 70000 + v
+                "labels": rng.choice(["id", "id", "shift", "big"]),   # vertex labels 0..N-1, 1000 + 7v, or 70000 + v
+                "again": rng.random() < 0.5}                   # the object rewires once more afterwards: the first result must survive
         if rng.random() < 0.2:
             # object reuse: the same vertices carried other motifs (hence other joint degrees) in the network rewired before
             es0, jd0, _t = R.clean_network(rng, n, sizes, dens, names=names)
